@@ -1018,7 +1018,8 @@ func runHistCase(idx int, dir, tier string, seed int64) *caseResult {
 					var ts int64
 					fmt.Sscan(parts[2], &ts)
 					ev := expValue(exp, parts[0], parts[1], ts)
-					if ev == nil || len(ev.Possible) < 2 {
+					// several possible values - or too many to enumerate - only arise where first/last values meet
+					if ev == nil || (len(ev.Possible) < 2 && !ev.Unknown) {
 						firstLast = false
 					}
 				}
